@@ -18,7 +18,10 @@
      h.closed{byproxy}          client: after being told to go away the connection was (not) closed by the proxy
      h.close                    client closes
      oldexit                    driver: the old instance's life ends here (everything it still owns would die)
-     quiesce / abandon{why} *)
+     h.stray{detail}            client: a frame / bytes arrived although no request was waiting
+     quiesce / abandon{why}
+   bolt connections are multiplexed: `inflight` requests are completely written before the stop and answered by the
+   upstream only after the move, one at a time, in the order of the case (fifo | lifo). *)
 EXTENDS Handover, VTrace
 
 VARIABLES pending       \* bytes of a partly written request that the proxy has read and not consumed
@@ -35,20 +38,20 @@ TRun == /\ IsEvent("run")
         /\ proto' = Ev.proto /\ follow' = Ev.follow /\ owner' = "old" /\ stop' = "no" /\ closeFlag' = FALSE /\ oldAlive' = TRUE
         /\ k' = 1 /\ sent' = 0 /\ rbuf' = <<>> /\ stream' = [r \in Reqs |-> "none"] /\ by' = [r \in Reqs |-> "none"]
         /\ replies' = [r \in Reqs |-> 0] /\ told' = FALSE /\ repliedAfterNotice' = FALSE /\ lost' = FALSE /\ killed' = FALSE
-        /\ fresh' = FALSE /\ pending' = 0
+        /\ fresh' = FALSE /\ pending' = 0 /\ route' = TRUE /\ order' = "fifo"
 
 TConnect == IsEvent("h.connect") /\ K(<<vars, pending>>)
 
 TSent == /\ IsEvent("h.sent")
          /\ k' = Ev.k /\ sent' = Ev.cut
          /\ pending' = IF Ev.n < Ev.total THEN Ev.n ELSE 0
-         /\ K(<<proto, owner, stop, closeFlag, oldAlive, rbuf, stream, by, replies, told, repliedAfterNotice, lost, killed, follow, fresh>>)
+         /\ K(<<proto, owner, stop, closeFlag, oldAlive, rbuf, stream, by, replies, told, repliedAfterNotice, lost, killed, follow, fresh, route, order>>)
 
 TNew == /\ IsEvent("new")
         \* DecodedBy: a request completed after the move belongs to the new instance, every other one to the old instance
         /\ Expect(Ev.by = ExpectedDecoder, "request-decoded-by-the-wrong-process")
         /\ stream' = [stream EXCEPT ![Decoded + 1] = "open"] /\ by' = [by EXCEPT ![Decoded + 1] = Ev.by]
-        /\ K(<<proto, owner, stop, closeFlag, oldAlive, k, sent, rbuf, replies, told, repliedAfterNotice, lost, killed, follow, fresh, pending>>)
+        /\ K(<<proto, owner, stop, closeFlag, oldAlive, k, sent, rbuf, replies, told, repliedAfterNotice, lost, killed, follow, fresh, route, order, pending>>)
 
 TClean == IsEvent("clean") /\ K(<<vars, pending>>)
 
@@ -67,14 +70,14 @@ TReply == /\ IsEvent("h.reply")
           /\ told' = (told \/ Ev.close)
           /\ repliedAfterNotice' = (repliedAfterNotice \/ (Ev.ok /\ stop \in {"seen", "moved"}))
           /\ sent' = 0 /\ pending' = 0
-          /\ K(<<proto, owner, stop, closeFlag, oldAlive, k, rbuf, by, killed, follow, fresh>>)
+          /\ K(<<proto, owner, stop, closeFlag, oldAlive, k, rbuf, by, killed, follow, fresh, route, order>>)
 
 TStop == /\ IsEvent("stop") /\ stop' = "called"
-         /\ K(<<proto, owner, closeFlag, oldAlive, k, sent, rbuf, stream, by, replies, told, repliedAfterNotice, lost, killed, follow, fresh, pending>>)
+         /\ K(<<proto, owner, closeFlag, oldAlive, k, sent, rbuf, stream, by, replies, told, repliedAfterNotice, lost, killed, follow, fresh, route, order, pending>>)
 
 TStopSeen == /\ IsEvent("stopseen") /\ stop' = "seen"
              /\ Expect(Ev.transferable = (proto = "bolt"), "transferability-differs-from-protocol")
-             /\ K(<<proto, owner, closeFlag, oldAlive, k, sent, rbuf, stream, by, replies, told, repliedAfterNotice, lost, killed, follow, fresh, pending>>)
+             /\ K(<<proto, owner, closeFlag, oldAlive, k, sent, rbuf, stream, by, replies, told, repliedAfterNotice, lost, killed, follow, fresh, route, order, pending>>)
 
 TTransfer == /\ IsEvent("transfer")
              \* BytesIntact at the old instance: what it ships is exactly what it had read of the unfinished request
@@ -84,15 +87,15 @@ TTransfer == /\ IsEvent("transfer")
 TTransferNew == /\ IsEvent("transfer.new")
                 /\ Expect(Ev.buffered = pending, "buffered-bytes-not-received")
                 /\ stop' = "moved" /\ owner' = "new"
-                /\ K(<<proto, closeFlag, oldAlive, k, sent, rbuf, stream, by, replies, told, repliedAfterNotice, lost, killed, follow, fresh, pending>>)
+                /\ K(<<proto, closeFlag, oldAlive, k, sent, rbuf, stream, by, replies, told, repliedAfterNotice, lost, killed, follow, fresh, route, order, pending>>)
 
 THClosed == /\ IsEvent("h.closed")
             /\ Expect(Ev.byproxy, "told-to-go-away-but-connection-left-open")
             /\ owner' = "closed"
-            /\ K(<<proto, stop, closeFlag, oldAlive, k, sent, rbuf, stream, by, replies, told, repliedAfterNotice, lost, killed, follow, fresh, pending>>)
+            /\ K(<<proto, stop, closeFlag, oldAlive, k, sent, rbuf, stream, by, replies, told, repliedAfterNotice, lost, killed, follow, fresh, route, order, pending>>)
 
 THClose == /\ IsEvent("h.close") /\ owner' = "closed"
-           /\ K(<<proto, stop, closeFlag, oldAlive, k, sent, rbuf, stream, by, replies, told, repliedAfterNotice, lost, killed, follow, fresh, pending>>)
+           /\ K(<<proto, stop, closeFlag, oldAlive, k, sent, rbuf, stream, by, replies, told, repliedAfterNotice, lost, killed, follow, fresh, route, order, pending>>)
 
 TOldExit == /\ IsEvent("oldexit")
             \* HandedOver: a transferable connection has left the old instance by now (unless the run already lost a request on it)
@@ -101,7 +104,7 @@ TOldExit == /\ IsEvent("oldexit")
             /\ Expect(~(proto = "http1" /\ owner = "old" /\ repliedAfterNotice /\ ~told), "connection-kept-by-old-process-until-it-leaves")
             /\ oldAlive' = FALSE
             /\ killed' = (owner = "old" /\ ~told)
-            /\ K(<<proto, owner, stop, closeFlag, k, sent, rbuf, stream, by, replies, told, repliedAfterNotice, lost, follow, fresh, pending>>)
+            /\ K(<<proto, owner, stop, closeFlag, k, sent, rbuf, stream, by, replies, told, repliedAfterNotice, lost, follow, fresh, route, order, pending>>)
 
 TQuiesce == /\ IsEvent("quiesce")
             /\ Expect(\A r \in Reqs : stream[r] # "open", "request-never-answered")
@@ -109,7 +112,10 @@ TQuiesce == /\ IsEvent("quiesce")
 
 TAbandon == IsEvent("abandon") /\ K(<<vars, pending>>)
 
+\* OneReply: something arrived on the connection although no request was waiting for it (a second answer, an answer to nobody)
+TStray == IsEvent("h.stray") /\ Expect(FALSE, "reply-without-waiting-request") /\ K(<<vars, pending>>)
+
 TraceNext == TRun \/ TConnect \/ TSent \/ TNew \/ TClean \/ TReply \/ TStop \/ TStopSeen \/ TTransfer \/ TTransferNew
-             \/ THClosed \/ THClose \/ TOldExit \/ TQuiesce \/ TAbandon
+             \/ THClosed \/ THClose \/ TOldExit \/ TQuiesce \/ TAbandon \/ TStray
 TraceSpec == TraceInit /\ [][TraceNext]_tvars
 ====
